@@ -143,6 +143,8 @@ codec.sorts, codec.encode, codec.decode = sorts, encode, decode
 
 
 def read_attr(it, owner_name, owner_term, owner_sort, attr, spec):
+    if isinstance(spec, tuple) and spec and spec[0] == "absmap":
+        return it.fresh(spec, attr)      # a cache dict: contents not tracked (every read is arbitrary)
     ss = sorts(spec)
     terms = [attr_fn(owner_name, attr, k, [owner_sort], s)(owner_term) for k, s in enumerate(ss)]
     v, _ = decode(it, spec, terms)
